@@ -125,6 +125,23 @@ def run_impl(c):
                 {'kind': 'encoder-raised-' + type(e).__name__, 'detail': str(e)[:200]}, 'sig': 'enc-raise'}
     chunks = list(res.chunks)
     text = ''.join(chunks)
+    if c.get('via') == 'shorthand':
+        # the documented front door: the module-level unicode_to_latex() with its process-wide cache of encoder objects,
+        # after calls with other option values in the same process; it must return what an encoder object returns
+        from pylatexenc import latexencode as le
+        for kw in c.get('pre') or []:
+            try:
+                le.unicode_to_latex('a%b_c \u00e9{}\\', **kw)
+            except Exception:
+                pass
+        try:
+            text2 = le.unicode_to_latex(s, replacement_latex_protection=c['prot'])
+        except Exception as e:
+            return {'out': 'raise ' + type(e).__name__, 'fail': {'kind': 'shorthand-raised-' + type(e).__name__, 'detail': str(e)[:200]}, 'sig': 'enc-raise'}
+        if text2 != text:
+            return {'out': ' '.join(['ok'] + [show_str(x) for x in chunks]) + ' | shorthand ' + show_str(text2),
+                    'fail': {'kind': 'shorthand-differs', 'detail': 'latexencode.unicode_to_latex(%r, replacement_latex_protection=%r) = %r after calls with %r, an encoder object gives %r'
+                             % (s[:60], c['prot'], text2[:120], c.get('pre'), text[:120])}, 'sig': 'shorthand'}
     try:
         back = get_l2t(c['sls']).latex_to_text(text)
         out2 = 'ok ' + show_str(back)
@@ -225,6 +242,18 @@ def cases(tier, rng):
         p, q = rng.choice(COMBOS)
         yield rt(s, p, q)
     # 4. negative controls: the characters of the committed exception list do not come back (not violations; see signature)
+    # 4. through the module-level shorthand (process-wide encoder cache), after calls with other option values
+    PRE = [{'non_ascii_only': True}, {'unknown_char_policy': 'replace'}, {'unknown_char_warning': False}, {'unknown_char_policy': 'ignore', 'non_ascii_only': True}]
+    for _ in range(400 if quick else 6000):
+        L = rng.randint(1, 10)
+        s = ''.join(rng.choice(A) if rng.random() < 0.6 else rng.choice('%&#_{}$\\~ ab') for _ in range(L))
+        if not par_clean(s):
+            continue
+        p, q = rng.choice(COMBOS)
+        c = rt(s, p, q)
+        c['via'] = 'shorthand'
+        c['pre'] = [dict(rng.choice(PRE), replacement_latex_protection=p) for _ in range(rng.randint(1, 2))]
+        yield c
     for k in D['exc']:
         if k in D['table']:
             yield {'k': 'neg', 's': chr(k), 'prot': 'braces', 'sls': False}
